@@ -8,6 +8,7 @@ clauses of the specification oracle find nothing on these evaluations (`model_sa
 -/
 import NV.C05.Props
 import NV.C05.Guards
+import NV.C05.Tie
 
 namespace NV.C05
 
@@ -182,6 +183,39 @@ theorem backend_cycle_restores (p : Prog) (k : Nat) (m00 : M) :
     rw [hr] at hb
     have : m1.ctxs = [] := hb
     rw [h1x] at this; cases this
+
+/-- **the fix_object_names slot.**  When `restore_context` unwinds a value-stack segment that contains the T_ERROR_HANDLER
+    slot of destruct_object (the reload of a vital object failed), both vital objects carry the recorded names again;
+    a segment without the slot leaves the names alone. -/
+theorem restoreContext_runs_fixNames {e : Ctx} {m m' : M} {dv rest : List Slot}
+    (hv : m.vs = dv ++ rest) (hl : rest.length = e.saveSp) (h : restoreContext e m = .ok m') :
+    (fixNamesId ∈ handlerIds dv → m'.masterName = m.savedMasterName ∧ m'.simulName = m.savedSimulName) ∧
+    (fixNamesId ∉ handlerIds dv → m'.masterName = m.masterName ∧ m'.simulName = m.simulName) := by
+  simp only [restoreContext] at h
+  split at h
+  · cases h
+  · rename_i m2 h2
+    have h2f : m2.vs = dv ++ rest ∧ m2.masterName = m.masterName ∧ m2.simulName = m.simulName ∧
+        m2.savedMasterName = m.savedMasterName ∧ m2.savedSimulName = m.savedSimulName := by
+      split at h2
+      · unfold popFrame at h2
+        split at h2
+        · cases h2
+        · cases h2; exact ⟨hv, rfl, rfl, rfl, rfl⟩
+      · cases h2; exact ⟨hv, rfl, rfl, rfl, rfl⟩
+    obtain ⟨h2v, hn1, hn2, hs1, hs2⟩ := h2f
+    split at h
+    · cases h
+    · split at h
+      · cases h
+      · rename_i m3 h3
+        cases h
+        have hlen : m2.vs.length - e.saveSp = dv.length := by rw [h2v]; simp; omega
+        rw [hlen] at h3
+        obtain ⟨m4, hp, ha, hb, _, _⟩ := popN_fixNames dv m2 rest h2v
+        rw [hp] at h3
+        cases h3
+        exact ⟨fun hin => by rw [← hs1, ← hs2]; exact ha hin, fun hnin => by rw [← hn1, ← hn2]; exact hb hnin⟩
 
 /-- the heart-beat switch-off of error_handler: afterwards no heart beat is current, and the one that was is recorded as off -/
 theorem hbOffStep_spec (m : M) :
